@@ -29,6 +29,7 @@ type GenOpts struct {
 	CachedProb        float64
 	AllowFilterShadow bool // allow a DestroyReady input next to another input of the same kind in one controller
 	NoLate            bool
+	NoByIDMapped      bool // no queue-controller mapped inputs declared by ID
 }
 
 // GenCfg draws a runtime configuration.
@@ -118,6 +119,26 @@ func GenCfg(rng *rand.Rand, o GenOpts) Cfg {
 		q.Inputs = append(q.Inputs, controller.Input{Namespace: p.NS, Type: p.Type, Kind: controller.InputQPrimary})
 
 		for _, j := range perm[1:] {
+			// now and then a mapped kind is declared by ID, twice: one resource as a plain mapped input, its sibling of the same kind as a
+			// destroy-ready one (in either order) - each input keeps its own notification rule
+			if !o.NoByIDMapped && len(IDs) >= 2 && rng.IntN(5) == 0 {
+				a := rng.IntN(len(IDs))
+				b := (a + 1 + rng.IntN(len(IDs)-1)) % len(IDs)
+				pair := []controller.Input{
+					{Namespace: Kinds[j].NS, Type: Kinds[j].Type, ID: optional.Some(IDs[a]), Kind: controller.InputQMapped},
+					{Namespace: Kinds[j].NS, Type: Kinds[j].Type, ID: optional.Some(IDs[b]), Kind: controller.InputQMappedDestroyReady},
+				}
+
+				if rng.IntN(2) == 0 {
+					pair[0], pair[1] = pair[1], pair[0]
+				}
+
+				q.Inputs = append(q.Inputs, pair...)
+				cfg.ByIDMapped++
+
+				continue
+			}
+
 			switch rng.IntN(4) {
 			case 0, 1:
 				q.Inputs = append(q.Inputs, controller.Input{Namespace: Kinds[j].NS, Type: Kinds[j].Type, Kind: controller.InputQMapped})
